@@ -16,6 +16,8 @@ Extended program syntax (superset of scope_gen's):
   ('filt', filt, body)                                 filt as above: {% filter replace('', e) %}
   ('break',) ('continue',) ('loopcall', e)             {% break %} {% continue %} {{ loop(e) }}
   ('calla', x, attr, [e..])                            {{ x.attr(e, ..) }}   (a macro stored in a namespace attribute)
+  ('nsnew', x, [(None, e), (a, e)..])                  namespace(e, a=e): a first item with attribute None is the
+                                                        positional source (a dict / pairs), copied
   call arguments may end with ('kw', name, e) items     m(e, name=e): keyword arguments; extra positional / keyword
                                                         arguments reach the macro's special variables varargs / kwargs
   expr ('attr', 'loop', a)  a in index index0 first last length revindex
@@ -59,8 +61,9 @@ class RNS:
 
 
 class RMacro:
-    def __init__(self, kind, name, params, body, env, uses_caller=None):
+    def __init__(self, kind, name, params, body, env, defaults=None):
         self.kind, self.name, self.params, self.body, self.env = kind, name, params, body, env
+        self.defaults = dict(defaults or {})      # parameter -> default expression (evaluated at call time)
         # does the macro use its special variable?  True / False / None (not determined by the rules, see special_use)
         self.sp = {n: special_use(n, params, body) for n in ("caller", "kwargs", "varargs")}
 
@@ -153,11 +156,12 @@ def mentions(name, body):
             return True
         if k in ("filt", ) and (mentions(name, s[2]) or (isinstance(s[1], (tuple, list)) and ex(s[1][1]))):
             return True
-        if k == "macro" and mentions(name, s[3]):
+        if k == "macro" and (mentions(name, s[3]) or (len(s) > 4 and any(ex(e) for e in s[4].values()))):
             return True
         if k == "callo" and (s[1] == name or any(ex(e) for e in s[2])):
             return True
-        if k == "callb" and (s[2] == name or any(ex(e) for e in s[3]) or mentions(name, s[4])):
+        if k == "callb" and (s[2] == name or any(ex(e) for e in s[3]) or mentions(name, s[4])
+                             or (len(s) > 5 and any(ex(e) for e in s[5].values()))):
             return True
         if k == "loopcall" and (name == "loop" or ex(s[1])):
             return True
@@ -284,7 +288,7 @@ def nested_mention(name, body):
     """is `name` mentioned inside a nested macro / call-block body"""
     for s in body:
         k = s[0]
-        if k == "macro" and mentions(name, s[3]):
+        if k == "macro" and (mentions(name, s[3]) or (len(s) > 4 and any(ex(e) for e in s[4].values()))):
             return True
         if k == "callb" and mentions(name, s[4]):
             return True
@@ -409,12 +413,12 @@ class Ref:
             for k, v in kws:
                 if k in f.params:
                     if k in sc:
+                        if f.sp["kwargs"] is not False:
+                            raise _Unspecified()    # a macro collecting keyword arguments: where the duplicate goes is not a scoping matter
                         raise TypeError("multiple values")
                     sc[k] = v
                 else:
                     kw_extra[k] = v
-            for p in f.params:
-                sc.setdefault(p, U())
             if caller is not None and f.sp["caller"] is False and f.sp["kwargs"] is not False:
                 raise _Unspecified()        # a caller handed to a macro that only collects keyword arguments
             for name, given in (("varargs", bool(extra)), ("kwargs", bool(kw_extra)), ("caller", caller is not None)):
@@ -429,6 +433,15 @@ class Ref:
                 sc["kwargs"] = kw_extra
             if f.sp["caller"]:
                 sc["caller"] = caller if caller is not None else U()
+            # parameters are the macro's own names from the start: a default is evaluated at call time, in the
+            # macro's scope, left to right; a parameter that is not bound yet (its own name, a later one) reads as
+            # undefined there, never as the variable of the same name outside
+            unbound = [p for p in f.params if p not in sc]
+            for p in unbound:
+                sc[p] = U()
+            for p in unbound:
+                if p in f.defaults:
+                    sc[p] = self.ev([sc] + f.env, f.defaults[p])
             self.depth += 1
             if self.depth > 120:
                 raise RecursionError()
@@ -583,7 +596,20 @@ class Ref:
             c = self.lookup(env, "namespace")
             kv = [(a, self.ev(env, e)) for a, e in s[2]]
             if c is NSCTOR:
-                env[0][s[1]] = RNS(kv)
+                # an item with attribute None is the positional argument: namespace(source, a=..) COPIES the
+                # mapping / pairs it is given (python's dict(source, **kw)); the source object stays untouched
+                attrs = {}
+                for a, v in kv:
+                    if a is None:
+                        if isinstance(v, U):
+                            raise RefUndefinedError()      # dict() asks its argument for the attribute `keys`
+                        if isinstance(v, (RNS, RMacro, RLoop)) or v is NSCTOR:
+                            raise TypeError("not iterable")
+                        attrs.update(dict(v))
+                for a, v in kv:
+                    if a is not None:
+                        attrs[a] = v
+                env[0][s[1]] = RNS(attrs)
                 return ""
             if isinstance(c, U):
                 raise RefUndefinedError()
@@ -611,7 +637,7 @@ class Ref:
             finally:
                 self.leave(inner[0])
         if k == "macro":
-            env[0][s[1]] = RMacro("macro", s[1], s[2], s[3], env)
+            env[0][s[1]] = RMacro("macro", s[1], s[2], s[3], env, s[4] if len(s) > 4 else None)
             return ""
         if k == "callo":
             f = self.lookup(env, s[1])
@@ -622,7 +648,7 @@ class Ref:
             args, kws = self.evargs(env, s[3])
             return str(self.call(f, args, None, kws))
         if k == "callb":
-            cl = RMacro("caller", None, s[1], s[4], env)
+            cl = RMacro("caller", None, s[1], s[4], env, s[5] if len(s) > 5 else None)
             f = self.lookup(env, s[2])
             args, kws = self.evargs(env, s[3])
             return str(self.call(f, args, cl, kws))
@@ -751,19 +777,22 @@ def s2_src(s):
     if k == "seta":
         return "{% set " + s[1] + "." + s[2] + " = " + e2_src(s[3]) + " %}"
     if k == "nsnew":
-        return "{% set " + s[1] + " = namespace(" + ", ".join(f"{a}={e2_src(e)}" for a, e in s[2]) + ") %}"
+        return "{% set " + s[1] + " = namespace(" + ", ".join(e2_src(e) if a is None else f"{a}={e2_src(e)}" for a, e in s[2]) + ") %}"
     if k == "with":
         return "{% with " + ", ".join(f"{x} = {e2_src(e)}" for x, e in s[1]) + " %}" + p2_src(s[2]) + "{% endwith %}"
     if k == "filt":
         return "{% filter " + f_src(s[1]) + " %}" + p2_src(s[2]) + "{% endfilter %}"
     if k == "macro":
-        return "{% macro " + s[1] + "(" + ", ".join(s[2]) + ") %}" + p2_src(s[3]) + "{% endmacro %}"
+        dfl = s[4] if len(s) > 4 else {}
+        return ("{% macro " + s[1] + "(" + ", ".join(x + ("=" + e2_src(dfl[x]) if x in dfl else "") for x in s[2]) + ") %}"
+                + p2_src(s[3]) + "{% endmacro %}")
     if k == "callo":
         return "{{ " + s[1] + "(" + ", ".join(e2_src(e) for e in s[2]) + ") }}"
     if k == "calla":
         return "{{ " + s[1] + "." + s[2] + "(" + ", ".join(e2_src(e) for e in s[3]) + ") }}"
     if k == "callb":
-        hd = "{% call" + ("(" + ", ".join(s[1]) + ")" if s[1] else "") + " "
+        dfl = s[5] if len(s) > 5 else {}
+        hd = "{% call" + ("(" + ", ".join(x + ("=" + e2_src(dfl[x]) if x in dfl else "") for x in s[1]) + ")" if s[1] else "") + " "
         return hd + s[2] + "(" + ", ".join(e2_src(e) for e in s[3]) + ") %}" + p2_src(s[4]) + "{% endcall %}"
     raise ValueError(s)
 
@@ -929,6 +958,21 @@ class EGen(G.SGen):
         # loop controls must not end up inside a macro / call block / filter / set block of the loop
         if s[0] in ("macro", "callb", "filt", "setb"):
             s = strip_controls_stmt(s)
+        if s[0] == "nsnew" and r.random() < 0.35:
+            # namespace(source, ...) built from a context value (a dict, pairs, anything) and mutated later
+            s = ("nsnew", s[1], [(None, ("n", self.name()))] + list(s[2]))
+        if s[0] in ("macro", "callb") and r.random() < 0.4:
+            # defaults for a suffix of the parameters: they read the parameter's own name, earlier / later
+            # parameters, outer names
+            ps = s[2] if s[0] == "macro" else s[1]
+            if ps:
+                k0 = r.randint(0, len(ps) - 1)
+                dfl = {}
+                for x in ps[k0:]:
+                    j = r.random()
+                    e = ("n", x) if j < 0.3 else ("n", r.choice(ps)) if j < 0.5 else self.expr(1)
+                    dfl[x] = e if r.random() < 0.7 else ("cat", e, ("s", "!"))
+                s = (s + (dfl,)) if len(s) == (4 if s[0] == "macro" else 5) else s
         if s[0] == "filt" and r.random() < 0.5:
             s = ("filt", ("rep", self.expr(1, in_loop)), s[2])
         return s, used
@@ -1129,6 +1173,8 @@ def unsafe_names(p):
                     ex(s[1][1], ld)      # the enclosing frame records this read (FrameSymbolVisitor.visit_FilterBlock)
                 walk(s[2], False)
             elif k == "macro":
+                for e in (s[4].values() if len(s) > 4 else ()):
+                    ex(e, inner_loaded)
                 walk(s[3], False)
                 store(s[1], root)
             elif k == "callo":
@@ -1139,6 +1185,8 @@ def unsafe_names(p):
                 ld.add(s[2])
                 for e in s[3]:
                     ex(e, ld)
+                for e in (s[5].values() if len(s) > 5 else ()):
+                    ex(e, inner_loaded)
                 walk(s[4], False)
             elif k == "calla":
                 ld.add(s[1])
@@ -1217,13 +1265,13 @@ def rename2(p, m):
         if k == "filt":
             return ("filt", (s[1][0], ex(s[1][1])) if isinstance(s[1], (tuple, list)) else s[1], rename2(s[2], m))
         if k == "macro":
-            return ("macro", f(s[1]), [f(x) for x in s[2]], rename2(s[3], m))
+            return ("macro", f(s[1]), [f(x) for x in s[2]], rename2(s[3], m)) + (({f(x): ex(e) for x, e in s[4].items()},) if len(s) > 4 else ())
         if k == "callo":
             return ("callo", f(s[1]), [ex(e) for e in s[2]])
         if k == "calla":
             return ("calla", f(s[1]), s[2], [ex(e) for e in s[3]])
         if k == "callb":
-            return ("callb", [f(x) for x in s[1]], f(s[2]), [ex(e) for e in s[3]], rename2(s[4], m))
+            return ("callb", [f(x) for x in s[1]], f(s[2]), [ex(e) for e in s[3]], rename2(s[4], m)) + (({f(x): ex(e) for x, e in s[5].items()},) if len(s) > 5 else ())
         return s
 
     return [st(s) for s in p]
@@ -1273,4 +1321,15 @@ def special_sweep():
                     prog = [("macro", "m", ["a"], d + u + [say(("n", "a"))]), c]
                     for cv in ((True, False) if d and d[0][0] == "if" else (True,)):
                         out.append((prog, {"c": ("plain", cv)}))
+    # parameter defaults that read the parameter's own name, an earlier / later parameter, an outer name
+    body = [say(("s", "[")), say(("n", "x")), say(("s", "|")), say(("n", "y")), say(("s", "|")), say(("n", "z")), say(("s", "]"))]
+    for dy in (("n", "y"), ("n", "x"), ("n", "z"), ("n", "o"), ("cat", ("n", "y"), ("s", "!")), ("add", ("n", "x"), ("i", 1))):
+        for dz in (("n", "z"), ("n", "y"), ("i", 7)):
+            dfl = {"y": dy, "z": dz}
+            for args in ([], [("i", 1)], [("i", 1), ("i", 2)], [("i", 1), ("kw", "z", ("i", 3))], [("kw", "y", ("s", "k"))]):
+                for data in ({}, {"y": ("plain", "Y"), "o": ("plain", "O"), "z": ("plain", 0)}):
+                    out.append(([("macro", "m", ["x", "y", "z"], body, dfl), ("callo", "m", args)], data))
+            for cargs in ([], [("i", 5)]):
+                out.append(([("macro", "m", [], [("callo", "caller", cargs)]),
+                             ("callb", ["y", "z"], "m", [], [say(("n", "y")), say(("s", "/")), say(("n", "z"))], dfl)], {"y": ("plain", "Y")}))
     return out
